@@ -77,7 +77,7 @@ func checkC13(c *ev.Ctx) {
 	streams := c13Streams(c)
 	n := 12000
 	if thorough(c) {
-		n = 60000
+		n = 300000
 	}
 	c.MinEvals(int64(n / 2))
 	par(n, func(i int) {
